@@ -54,6 +54,12 @@ CHECKS["C11"] = dict(text="TLC enumerates every 3x2 matrix over {-1,0,2} x weigh
     "magnitude-derived budgets), that inverse_transform undoes transform exactly, that new data is mapped by the same affine map, and the routes "
     "(repeated rows, StandardScaler, prior shift, prior rescaling up to sign); plus seeded larger lattices with widely different column scales.", ref="6/C11",
     tech="TLC-enumerated configurations replayed in the code; TLC validates recorded outputs against exact-rational / fixed-point laws")
+CHECKS["C12"] = dict(text="TLC enumerates every 3x2 integer feature matrix x weighting x flag combination x test-set size (34 992 configurations; thorough: all) "
+    "and each is replayed in KernelNormalizer; from the explicit features the specification computes the feature-space result exactly in rationals "
+    "(weighted centring, one common trace scale) and compares train-train and test-train kernels, the trace, scale_ and fit_transform; for "
+    "SparseKernelCenterer it checks vanishing weighted column means and Nystrom trace n with a pseudo-inverse witness verified through the "
+    "Moore-Penrose equations; plus seeded larger feature lattices with arbitrary test and active sets.", ref="6/C12",
+    tech="TLC-enumerated configurations replayed in the code; TLC validates outputs against the exact feature-space result (rationals, verified witnesses)")
 NA = {}
 def main():
     props = [json.loads(l)["id"] for l in open(os.path.join(HERE, "properties.jsonl"))]
